@@ -113,7 +113,8 @@ def L(x):
 
 TT_UN = dict(Y='tt')
 ENTRY = {
-    'act_many.add_many': [dict(Y_many='ttlist')],
+    'act_many.add_many': [dict(Y_many='ttlist'),
+                          dict(Y_many='ttlist', e='rel', r='int:rmax')],
     'act_many.outer_many': [dict(Y_many='ttlist')],
     'act_one.copy': [dict(Y='tt'), dict(Y='f[m,n]'), dict(Y='num')],
     'act_one.interface': [dict(Y='tt'),
